@@ -113,6 +113,13 @@ def build_all(need_coq=True):
             if rc != 0:
                 st["coq_ok"] = False
                 st["coq_failed"].append("translator T2 (tools/asm2coq.py): " + out.strip()[-500:])
+        prog_tool = os.path.join(VERIF, "tools", "asm2prog.py")
+        if os.path.exists(prog_tool):
+            rc, out, _ = run([sys.executable, prog_tool, "--repo", REPO, "--out", os.path.join(COQ, "gen")], timeout=120)
+            st["asmprog_rc"], st["asmprog_out"] = rc, out
+            if rc != 0:
+                st["coq_ok"] = False
+                st["coq_failed"].append("translator T2 (tools/asm2prog.py): " + out.strip()[-500:])
         st["times"]["gen"] = time.time() - t0
         # 3. proofs
         if need_coq:
@@ -224,7 +231,7 @@ def vo_up_to_date(vfile):
 # ----------------------------------------------------------------------------
 # running the harness and the extracted model
 
-def run_harness(prop, tier, seed, outdir, extra_env=None, binary=None, args=None):
+def run_harness(prop, tier, seed, outdir, extra_env=None, binary=None, args=None, timeout=None):
     os.makedirs(outdir, exist_ok=True)
     for f in ("cases.tsv", "stats.json", "model.out"):
         p = os.path.join(outdir, f)
@@ -236,7 +243,7 @@ def run_harness(prop, tier, seed, outdir, extra_env=None, binary=None, args=None
     cmd = [binary or os.path.join(BUILD, "bin", "harness"), "-prop", prop, "-seed", str(seed), "-tier", tier, "-out", outdir]
     if args:
         cmd += args
-    rc, out, wall = run(cmd, env=env, timeout=3400 if tier == "thorough" else 1500)
+    rc, out, wall = run(cmd, env=env, timeout=timeout or (3400 if tier == "thorough" else 1500))
     sp = os.path.join(outdir, "stats.json")
     if not os.path.exists(sp):
         raise Infra("harness produced no stats (rc=%s):\n%s" % (rc, out[-3000:]))
